@@ -90,7 +90,7 @@ pub fn generate(property: &str, seed: u64, tier: Tier) -> Plan {
         let any_folder = |r: &mut Rng| -> u64 { *r.pick(&[0u64, 0, 4, 4, 5]) };
         let s = match k {
             "xcreate" => json!({"op":"xcreate","dev":editor,"slot":slot,"folder":any_folder(&mut r),"val":val,"size":r.below(5),
-                "label":r.below(3),"tags":r.below(8),"fav":false}),
+                "label":r.below(3),"tags":r.below(8),"fav":false,"attach":r.below(3)}),
             "xupdate" => json!({"op":"xupdate","dev":editor,"slot":slot,"val":val,"size":r.below(5),"label":r.below(3),"tags":r.below(8),"fav":false}),
             "update" => json!({"op":"update","dev":editor,"slot":slot,"val":val,"label":r.below(3),"tags":r.below(8),"fav":false,"meta_only":r.chance(1,2)}),
             "create" => json!({"op":"create","dev":editor,"slot":slot,"folder":any_folder(&mut r),"kind":r.below(15),"val":val,
@@ -747,6 +747,7 @@ pub async fn execute(plan: Plan, dir: &Path) -> RunOutcome {
         world.devices[0].bridge = None;
         tokio::task::yield_now().await;
         let dst = dir.join("d1");
+        wait_sqlite_closed(&src);
         if let Err(e) = copy_dir_all(&src, &dst) {
             harness_err!(rec, plan, format!("copy device: {e}"));
         }
